@@ -566,3 +566,38 @@ func init() {
 		c.Expect(2, n, "stores of delivered data")
 	})
 }
+
+func init() {
+	extendProp("C48", "A storage range that ends at an explicit limit is proven: in ServiceGetStorageRangesQuery the proof generation (Prove) is reachable from the outcome `limit != MaxHash`, not only from a non-zero origin or an exhausted byte budget.", nil, func(c *Ctx) {
+		c.Rule("SHAPE/C48.limitproof")
+		sn := "eth/protocols/snap"
+		f := c.Fn(sn, "ServiceGetStorageRangesQuery")
+		if f == nil {
+			return
+		}
+		c.Funcs[f] = true
+		var proves []Site
+		eachInstr(f, func(in ssa.Instruction) {
+			if ci, ok := in.(ssa.CallInstruction); ok {
+				if n := calleeName(ci.Common()); strings.HasSuffix(n, ".Prove") {
+					proves = append(proves, Site{f, in})
+				}
+			}
+		})
+		c.Expect(1, len(proves), "Prove calls in the storage range handler")
+		if len(proves) == 0 {
+			return
+		}
+		edges := EdgesWhere(f, Cmp(Any(), token.NEQ, Global("common.MaxHash")))
+		for e := range EdgesWhere(f, Cmp(Global("common.MaxHash"), token.NEQ, Any())) {
+			edges[e] = true
+		}
+		ok := false
+		for e := range edges {
+			if blockReaches(e.From.Succs[e.Succ], proves[0].Instr.Block()) {
+				ok = true
+			}
+		}
+		c.Check(ok, "limit-decides-proof", proves[0].Pos(), "a reply cut at the requested limit carries boundary proofs", "the decision to attach proofs never looks at the limit: a request with zero origin and a limit below the last slot is answered with a strict prefix and no proof, which the client rejects")
+	})
+}
